@@ -19,7 +19,7 @@ class TranslateError(Exception):
     pass
 
 
-TOK = re.compile(r"\s*(0[xX][0-9a-fA-F]+|\d+|[A-Za-z_]\w*|<<|>>|[()\[\],|^&~+\-])")
+TOK = re.compile(r"\s*(0[xX][0-9a-fA-F]+|\d+|[A-Za-z_]\w*|<<|>>|[()\[\],|^&~+\-<%/*])")
 
 
 def tokenize(s):
@@ -65,10 +65,13 @@ class Parser:
 
     def p_or(self):  return self.binl(self.p_xor, {"|": lambda a, b: "(N.lor %s %s)" % (a, b)})
     def p_xor(self): return self.binl(self.p_and, {"^": lambda a, b: "(N.lxor %s %s)" % (a, b)})
-    def p_and(self): return self.binl(self.p_sh, {"&": lambda a, b: "(N.land %s %s)" % (a, b)})
+    def p_and(self): return self.binl(self.p_rel, {"&": lambda a, b: "(N.land %s %s)" % (a, b)})
+    def p_rel(self): return self.binl(self.p_sh, {"<": lambda a, b: "(if %s <? %s then 1 else 0)" % (a, b)})
     def p_sh(self):  return self.binl(self.p_add, {">>": lambda a, b: "(N.shiftr %s %s)" % (a, b),
                                                     "<<": lambda a, b: "(N.land (N.shiftl %s %s) (wmask W))" % (a, b)})
-    def p_add(self): return self.binl(self.p_un, {"+": lambda a, b: "(wadd W %s %s)" % (a, b), "-": lambda a, b: "(%s - %s)" % (a, b)})
+    def p_mul(self): return self.binl(self.p_un, {"%": lambda a, b: "(%s mod %s)" % (a, b), "/": lambda a, b: "(%s / %s)" % (a, b),
+                                                   "*": lambda a, b: "((%s * %s) mod 2 ^ W)" % (a, b)})
+    def p_add(self): return self.binl(self.p_mul, {"+": lambda a, b: "(wadd W %s %s)" % (a, b), "-": lambda a, b: "(%s - %s)" % (a, b)})
 
     def p_un(self):
         if self.peek() == "~":
@@ -231,6 +234,34 @@ def sha1_macros(txt):
     return out
 
 
+def finish_arith(repo, fn, hdr, cls, tag, blockname):
+    """The size arithmetic of <cls>::finish (where defect F1 lived): block_nb, len_b, pm_len, with BLOCK_SIZE / DIGEST_SIZE read from the header.
+    size_t and uint64_t are both 64-bit here (the drivers check the platform line): the unit's word type for these statements is W = 64."""
+    txt = strip_comments(open(os.path.join(repo, "src", fn), errors="replace").read())
+    h = strip_comments(open(os.path.join(repo, "include", "hmac_cpp", hdr), errors="replace").read())
+    consts = {}
+    for m in re.finditer(r"static\s+const\s+size_t\s+(\w+)\s*=\s*([^;]+);", h):
+        consts[m.group(1)] = expr(m.group(2), {})
+    if blockname not in consts or "DIGEST_SIZE" not in consts: raise TranslateError("%s: %s / DIGEST_SIZE not found" % (hdr, blockname))
+    body = func_body(txt, r"void\s+%s::finish\s*\([^)]*\)\s*\{" % cls)
+    body = re.sub(r"static_cast\s*<[^>]*>\s*\(", "(", body)
+    env = {"m_len": "m_len", "m_tot_len": "m_tot", "block_nb": "block_nb", blockname: "src_block_size"}
+    st = {}
+    for stm in body.split(";"):
+        m = re.match(r"^\s*(block_nb|len_b|pm_len)\s*=(.*)$", stm, flags=re.S)
+        if m:
+            if m.group(1) in st: raise TranslateError("%s::finish assigns %s twice" % (cls, m.group(1)))
+            st[m.group(1)] = expr(m.group(2), env)
+    if sorted(st) != ["block_nb", "len_b", "pm_len"]: raise TranslateError("%s::finish: statements found: %s" % (cls, sorted(st)))
+    return ["Module F%s." % tag,
+            "Definition src_block_size : N := %s." % consts[blockname],
+            "Definition src_digest_size : N := %s." % consts["DIGEST_SIZE"],
+            "Definition src_block_nb (W m_len : N) : N := %s." % st["block_nb"],
+            "Definition src_len_b (W m_tot m_len : N) : N := %s." % st["len_b"],
+            "Definition src_pm_len (W block_nb : N) : N := %s." % st["pm_len"],
+            "End F%s." % tag]
+
+
 def cstring_after(txt, anchor_re, count):
     out = []
     for m in re.finditer(anchor_re, txt):
@@ -257,6 +288,8 @@ def generate(repo):
         out.append("Definition src_iv : list N := [%s]." % "; ".join(init_values(txt, cls, 8)))
         out.extend(transform(txt, cls, "", kt))
         out.append("End S%s.\n" % tag)
+    out.extend(finish_arith(repo, "sha256.cpp", "sha256.hpp", "SHA256", "256", "SHA224_256_BLOCK_SIZE"))
+    out.extend(finish_arith(repo, "sha512.cpp", "sha512.hpp", "SHA512", "512", "SHA384_512_BLOCK_SIZE"))
     txt = strip_comments(open(os.path.join(repo, "src", "sha1.cpp"), errors="replace").read())
     out.append("Definition src_sha1_iv : list N := [%s]." % "; ".join(init_values(txt, "SHA1", 5)))
     ks = []
